@@ -69,6 +69,12 @@ func NewTimerWheel[K comparable, V any](size uint) *TimerWheel[K, V] {
 
 func (tw *TimerWheel[K, V]) findIndex(expire int64) (int, int) {
 	duration := expire - tw.nanos
+	if duration <= 0 {
+		// Already due (a TTL update applied after its new deadline has passed). The slot
+		// of the deadline's own tick may lie behind the wheel and would only be reached a
+		// full rotation later: park the entry in the slot of the current tick instead.
+		return 0, int(tw.nanos>>int64(tw.shift[0])) & (int(tw.buckets[0]) - 1)
+	}
 	for i := 0; i < 5; i++ {
 		if duration < int64(tw.spans[i+1]) {
 			ticks := expire >> int(tw.shift[i])
